@@ -502,6 +502,45 @@ def subpath_constraints(rng, g, max_c=2, contiguous_only=False):
     return out
 
 
+def digraph_parallel(rng, max_parallel=3):
+    """Two strongly connected parts (each a single node, a self-loop, a 2-cycle or a 3-cycle) joined by 2..max_parallel
+    parallel edges between *different* node pairs, an entry into the first part, an exit from the second one and,
+    sometimes, a by-pass branch.  Unit weights unless drawn otherwise."""
+    ns = names(rng, 10)
+    it = iter(ns)
+
+    def part():
+        kind = rng.choice(["node", "loop", "two", "three", "three"])
+        if kind == "node":
+            a = next(it)
+            return [a], []
+        if kind == "loop":
+            a = next(it)
+            return [a], [(a, a)]
+        if kind == "two":
+            a, b = next(it), next(it)
+            return [a, b], [(a, b), (b, a)]
+        a, b, c = next(it), next(it), next(it)
+        return [a, b, c], [(a, b), (b, c), (c, a)]
+    A, EA = part()
+    B, EB = part()
+    s_, t_ = next(it), next(it)
+    order = [(s_, rng.choice(A))] + EA
+    pairs = [(x, y) for x in A for y in B]
+    rng.shuffle(pairs)
+    order += pairs[:max(1, min(len(pairs), rng.randint(2, max_parallel)))]
+    order += EB + [(rng.choice(B), t_)]
+    if rng.random() < 0.5:
+        order.append((s_, t_)) if rng.random() < 0.3 else order.extend([(s_, ns[-1]), (ns[-1], t_)])
+    rng.shuffle(order)
+    nodes = []
+    for u, v in order:
+        for x in (u, v):
+            if x not in nodes:
+                nodes.append(x)
+    return {"kind": "digraph", "nodes": nodes, "edges": [[u, v, rng.choice([1, 1, 2, 5])] for u, v in order], "routes": None, "weights": None}
+
+
 def digraph_rich(rng, max_nodes=6, max_extra=6):
     """Digraph with many cycles (nested, touching, self-loops, parallel exits); unit weights.
     The first backbone node is a source and the last one a sink."""
